@@ -577,6 +577,22 @@ Section Rt2.
   Qed.
   Local Transparent path_join.
 
+  (* Save on a well-formed tree: exactly the entries of the tree below <name>/ *)
+  Lemma save_wf2 c : WT2 c -> save md_enc lock_enc json_valid sanitize is_semver rest_valid c = Some (TE c).
+  Proof.
+    intros Hwf. unfold save. inversion Hwf as [c' Hown _ _ _]; subst. destruct Hown as [Hval _ _ _ _ _ _].
+    cbn [own c_meta] in Hval. rewrite Hval.
+    assert (set_meta c (c_meta c) = c) as -> by (destruct c; reflexivity).
+    rewrite (save_tree2 c Hwf "" (or_introl eq_refl)). reflexivity.
+  Qed.
+
+  Lemma save_filename_wf2 c : WT2 c ->
+    save_filename sanitize is_semver rest_valid c = Some (m_name (c_meta c) ++ "-" ++ m_version (c_meta c) ++ ".tgz").
+  Proof.
+    intros Hwf. unfold save_filename. inversion Hwf as [c' Hown _ _ _]; subst. destruct Hown as [Hval _ _ _ _ _ _].
+    cbn [own c_meta] in Hval. now rewrite Hval.
+  Qed.
+
   (* C15_save_load_roundtrip *)
   Theorem save_load_roundtrip c :
     WT2 c -> nobom_tree c ->
